@@ -49,6 +49,9 @@ type regexpSimplifyChecker struct {
 	out *strings.Builder
 	// score is a number of applied simplifications
 	score int
+
+	// classHasDash tells whether the char class being walked has a literal '-' item.
+	classHasDash bool
 }
 
 func (c *regexpSimplifyChecker) VisitExpr(x ast.Expr) {
@@ -197,9 +200,7 @@ func (c *regexpSimplifyChecker) walk(e syntax.Expr) {
 			c.score++
 		} else {
 			out.WriteString("[^")
-			for _, e := range e.Args {
-				c.walk(e)
-			}
+			c.walkCharClassItems(e)
 			out.WriteString("]")
 		}
 
@@ -210,9 +211,7 @@ func (c *regexpSimplifyChecker) walk(e syntax.Expr) {
 			c.score++
 		} else {
 			out.WriteString("[")
-			for _, e := range e.Args {
-				c.walk(e)
-			}
+			c.walkCharClassItems(e)
 			out.WriteString("]")
 		}
 
@@ -238,6 +237,19 @@ func (c *regexpSimplifyChecker) walk(e syntax.Expr) {
 	default:
 		out.WriteString(e.Value)
 	}
+}
+
+func (c *regexpSimplifyChecker) walkCharClassItems(class syntax.Expr) {
+	c.classHasDash = false
+	for _, e := range class.Args {
+		if (e.Op == syntax.OpChar || e.Op == syntax.OpEscapeChar) && strings.HasSuffix(e.Value, "-") {
+			c.classHasDash = true
+		}
+	}
+	for _, e := range class.Args {
+		c.walk(e)
+	}
+	c.classHasDash = false
 }
 
 func (c *regexpSimplifyChecker) walkGroup(g syntax.Expr) {
@@ -510,6 +522,19 @@ func (c *regexpSimplifyChecker) simplifyCharRange(rng syntax.Expr) string {
 	lo := rng.Args[0].Value
 	hi := rng.Args[1].Value
 	if len(lo) == 1 && len(hi) == 1 {
+		if c.classHasDash {
+			// A collapsed range next to a literal '-' can form a new range:
+			// `[a-a-0-1]` is not `[a-01]`.
+			return ""
+		}
+		for ch := lo[0]; ch <= hi[0] && hi[0]-lo[0] <= 2; ch++ {
+			switch ch {
+			case '-', ']', '[', '^', '\\':
+				// Expanding `+--` into `+,-` puts a bare '-' (or another
+				// char class metacharacter) between other items.
+				return ""
+			}
+		}
 		switch hi[0] - lo[0] {
 		case 0:
 			return lo
